@@ -1,5 +1,7 @@
 package rules
 
+import "strings"
+
 // Second part of the mutant catalogue (pipeline properties). Same conventions as mutants.go.
 
 func init() {
@@ -107,5 +109,44 @@ func init() {
 		Mutant{ID: "ctl-augment-comment", Property: "C12", File: buildgo, Silent: true, Old: "\t\t\t\tanyChange = true\n\t\t\t\tremoveFunc := true", New: "\t\t\t\t// the file needs a clean-up pass\n\t\t\t\tanyChange = true\n\t\t\t\tremoveFunc := true", Note: "a comment added"},
 		Mutant{ID: "ctl-hint-writer-two-writes", Property: "C19", File: hint, Silent: true, Old: "\tencoded := []byte{HintMagic}\n\tencoded = binary.BigEndian.AppendUint16(encoded, uint16(len(h.Payload)))", New: "\tencoded := make([]byte, 0, 3+len(h.Payload))\n\tencoded = append(encoded, HintMagic)\n\tencoded = binary.BigEndian.AppendUint16(encoded, uint16(len(h.Payload)))", Note: "buffer preallocated"},
 		Mutant{ID: "ctl-whitespace-out-prealloc", Property: "C16", File: utils, Silent: true, Old: "\tvar out []byte\n\tvar previous byte\n\tfor len(b) > 0 {", New: "\tout := make([]byte, 0, len(b))\n\tvar previous byte\n\tfor len(b) > 0 {", Note: "output buffer preallocated"},
+	)
+	// Negative controls of the second kind: a local identifier renamed inside an anchored function.
+	rn := func(prop, file, fn, from, to string) Mutant {
+		return Mutant{ID: "ctl-rename-" + strings.ReplaceAll(fn, ".", "-") + "-" + from, Property: prop, File: file, Silent: true, Rename: &Rename{fn, from, to}, Note: "local `" + from + "` renamed to `" + to + "` in " + fn}
+	}
+	addMutants(
+		rn("C07", "compiler/statements.go", "funcContext.translateAssign", "rhsExpr", "value"),
+		rn("C07", "compiler/statements.go", "funcContext.translateAssign", "lhsType", "dstType"),
+		rn("C15", "compiler/statements.go", "funcContext.translateAssign", "keyVar", "kv"),
+		rn("C16", "compiler/utils.go", "removeWhitespace", "previous", "prev"),
+		rn("C19", "compiler/utils.go", "removeWhitespace", "previous", "prev"),
+		rn("C16", "compiler/utils.go", "funcContext.newVariable", "varName", "result"),
+		rn("C20", "build/cache/cache.go", "BuildCache.Store", "path", "file"),
+		rn("C20", "build/cache/cache.go", "BuildCache.Load", "path", "file"),
+		rn("C20", "build/cache/cache.go", "BuildCache.commonKey", "ck", "key"),
+		rn("C12", "build/build.go", "augmentOriginalFile", "anyChange", "changed"),
+		rn("C12", "build/build.go", "augmentOriginalFile", "removeFunc", "drop"),
+		rn("C12", "build/build.go", "pruneImports", "unused", "candidates"),
+		rn("C10", "compiler/decls.go", "funcContext.funcDecls", "mainFunc", "entry"),
+		rn("C10", "compiler/compiler.go", "WritePkgCode", "filteredDecls", "alive"),
+		rn("C05", "compiler/compiler.go", "WritePkgCode", "filteredDecls", "alive"),
+		rn("C19", "internal/sourcemapx/hint.go", "ReadHint", "size", "n"),
+		rn("C19", "internal/sourcemapx/filter.go", "Filter.Write", "hint", "h"),
+		rn("C04", "compiler/internal/typeparams/collect.go", "visitor.addInstance", "tArgs", "args"),
+		rn("C05", "compiler/internal/dce/selector.go", "Selector.AliveDecls", "infos", "waiting"),
+		rn("C05", "compiler/internal/dce/selector.go", "Selector.AliveDecls", "dceSelection", "live"),
+		rn("C02", "compiler/internal/analysis/info.go", "FuncInfo.markBlocking", "stack", "path"),
+		rn("C02", "compiler/statements.go", "funcContext.translateStmt", "rVal", "retVal"),
+		rn("C02", "compiler/expressions.go", "funcContext.translateCall", "resumeCase", "label"),
+		rn("C08", "compiler/functions.go", "funcContext.translateFunctionBody", "deferSuffix", "tail"),
+		rn("C17", "compiler/decls.go", "funcContext.importDecls", "importedPaths", "paths"),
+		rn("C18", "build/context.go", "embedFiles", "embed", "e2"),
+		rn("C01", "compiler/package.go", "Compile", "rootCtx", "root"),
+		rn("C06", "compiler/expressions.go", "funcContext.fixNumber", "value", "v"),
+		rn("C14", "compiler/expressions.go", "funcContext.translateConversion", "exprType", "srcType"),
+		rn("C09", "compiler/decls.go", "funcContext.methodListEntry", "pkgPath", "pp"),
+		rn("C11", "compiler/expressions.go", "funcContext.internalize", "s", "src"),
+		rn("C03", "compiler/statements.go", "funcContext.translateStmt", "channels", "chans"),
+		rn("C13", "nosync/mutex.go", "WaitGroup.Add", "delta", "d"),
 	)
 }
